@@ -1,6 +1,6 @@
 (* C01 -- The partition log is a gap-free, ordered, immutable record of what was appended.
    Only property theorems, each closed by [exact] of a lemma from Log.Refine / Log.Proofs. *)
-From LB Require Import Base.Prelude Log.Model Log.Proofs Log.Refine Codec.Message Codec.MessageProofs.
+From LB Require Import Base.Prelude Log.Model Log.Proofs Log.Refine Codec.Message Codec.MessageProofs Log.TailWait Log.TailWaitProofs.
 Open Scope Z_scope.
 
 (* Every log reachable by any history of appends, message-set appends that continue the log,
@@ -71,3 +71,55 @@ Example C01_example :
   map r_off (all_recs l) = [0; 1; 2; 3; 4] /\ map s_base (l_segs l) = [0; 4] /\
   map r_off (fst (read_uncommitted l 2)) = [2; 3; 4].
 Proof. vm_compute. repeat split. Qed.
+
+(* ---- a reader that WAITS at the end of the log (Log.TailWait: the wake-up protocol between the
+   writers -- appends, rolls by size and by AGE, truncations -- and a blocking uncommitted reader, one
+   transition per critical section; the real Reader.ReadMessage loop, held by a verif hook in front
+   of segment.waitForData, is compared with it block by block on every run) ----
+   For every schedule: a reader registered as a waiter has consumed the whole log, unless the seal of
+   its segment -- which wakes it -- is still to come ... *)
+Theorem C01_waiting_reader_has_read_everything : forall cap sched,
+  let s := trun tcode (tinit cap) sched in
+  t_phase (s_rd s) = Parked -> s_pending s <> Some (t_seg (s_rd s)) ->
+  t_seg (s_rd s) = last_idx (s_segs s) /\ t_pos (s_rd s) = g_len (nth_sg (s_segs s) (last_idx (s_segs s))).
+Proof. exact parked_reader_has_read_everything. Qed.
+Print Assumptions C01_waiting_reader_has_read_everything.
+
+Theorem C01_seal_wakes_the_waiters : forall s i, tinv s -> s_pending s = Some i ->
+  ~ (t_phase (s_rd (tstep tcode s TSeal)) = Parked /\ t_seg (s_rd (tstep tcode s TSeal)) = i).
+Proof. exact seal_wakes. Qed.
+Print Assumptions C01_seal_wakes_the_waiters.
+
+(* ... and it never skips a message: it leaves a segment only for the next one and only when it has
+   consumed all of it. *)
+Theorem C01_reader_leaves_only_consumed_segments : forall s lb, tinv s ->
+  t_seg (s_rd (tstep tcode s lb)) <> t_seg (s_rd s) ->
+  t_seg (s_rd (tstep tcode s lb)) = S (t_seg (s_rd s)) /\ t_pos (s_rd s) = g_len (nth_sg (s_segs s) (t_seg (s_rd s))).
+Proof. exact reader_leaves_only_consumed_segments. Qed.
+Print Assumptions C01_reader_leaves_only_consumed_segments.
+
+Theorem C01_wait_invariant_reachable : forall cap sched, tinv (trun tcode (tinit cap) sched).
+Proof. intros cap sched. apply trun_inv. apply tinit_inv. Qed.
+Print Assumptions C01_wait_invariant_reachable.
+
+(* The pinned commit, refuted: a segment rolled because of its age between the reader's look at the
+   segment list and waitForData (the reader parks on a sealed segment with offset 1 in the next one);
+   a truncation that leaves the active segment marked sealed, rolled by age later. And half of the
+   repair is not enough: with the sealed test alone the reader of a truncated segment skips messages. *)
+Theorem C01_pinned_age_roll_refuted :
+  tshow (trun (mkTv false false) (tinit 10) [TAppend; TStep; TStep; TRollNew; TSeal; TAppend; TWaitDec])
+  = ([(1, true); (1, false)], None, (0%nat, 1, Parked, 1)).
+Proof. exact pinned_age_roll_race. Qed.
+Print Assumptions C01_pinned_age_roll_refuted.
+
+Theorem C01_pinned_truncate_then_age_roll_refuted :
+  tshow (trun (mkTv false false) (tinit 10) [TAppend; TAppend; TTruncCopy 1; TStep; TStep; TWaitDec; TRollNew; TSeal; TAppend])
+  = ([(1, true); (1, false)], None, (0%nat, 1, Parked, 1)).
+Proof. exact pinned_truncate_then_age_roll. Qed.
+Print Assumptions C01_pinned_truncate_then_age_roll_refuted.
+
+Theorem C01_sealed_test_alone_refuted :
+  tshow (trun (mkTv true false) (tinit 3) [TAppend; TAppend; TTruncCopy 1; TStep; TStep; TWaitDec; TStep; TAppend; TWaitDec; TStep; TWaitDec; TAppend; TRollNew; TSeal; TAppend; TStep; TStep])
+  = ([(3, true); (1, false)], None, (1%nat, 1, Running, 2)).
+Proof. exact sealed_test_alone_skips. Qed.
+Print Assumptions C01_sealed_test_alone_refuted.
